@@ -124,6 +124,11 @@ impl RecvHandle for Receiver {
             tracing::trace!("trying to read from transport");
             let len = self.read.read_buf(&mut self.buf).await?;
             tracing::trace!("read {len} bytes. buffer length is {}", self.buf.len());
+            if len == 0 {
+                // end of stream: the peer has closed the connection, no message will ever
+                // be completed
+                break Err(std::io::Error::from(std::io::ErrorKind::UnexpectedEof).into());
+            }
         }
     }
 }
